@@ -1,4 +1,5 @@
 """Helpers shared by props/c03.py and props/c07.py (ProxyMsg specifications)."""
+import json
 import random
 import re
 
@@ -35,16 +36,69 @@ def evaluate(ctx, module, events, name, batch=4000):
     return verdicts
 
 
-def run_harness(ctx, pkg, test, cases, name, timeout=900):
+def _read_tolerant(p):
+    """NDJSON written by a process that may have died: a last, incomplete line is dropped."""
+    out = []
+    try:
+        with open(p) as fh:
+            for ln in fh:
+                ln = ln.strip()
+                if ln:
+                    try:
+                        out.append(json.loads(ln))
+                    except ValueError:
+                        pass
+    except OSError:
+        pass
+    return out
+
+
+_FRAME_RE = re.compile(r"^(\S.*)\n\t(\S+\.go):(\d+)", re.M)
+
+
+def _crash_in_code_under_test(out):
+    """If the test process died of a Go panic / fatal error raised while running code of the repository under test (not of
+    the harness): the message and the innermost frames.  The goroutine that panicked is the first one printed.  It counts as a
+    crash of the code under test when its stack contains a frame of the module that is not a harness file (zz_verif_*, verifx)
+    below which there are only runtime / standard library frames, i.e. the innermost non-library frame is easegress code."""
+    m = re.search(r"^(panic: .*|fatal error: .*)$", out, re.M)
+    if not m:
+        return None
+    rest = out[m.end():]
+    g = re.search(r"^goroutine \d+ .*?:\n(.*?)(?:\n\n|\Z)", rest, re.M | re.S)
+    if not g:
+        return None
+    frames = _FRAME_RE.findall(g.group(1))
+    for fn, path, line in frames:
+        if "/go-1." in path or "/usr/lib/go" in path or "/go/src/" in path or fn.startswith(("runtime.", "panic(")):
+            continue                                  # runtime / standard library
+        if "zz_verif_" in path or "/verifx/" in path or "/verif/" in path:
+            return None                               # the harness itself
+        if "megaease/easegress" in fn or "/pkg/" in path:
+            return {"message": m.group(1)[:300], "frame": fn.rsplit("(", 1)[0].strip()[:200], "at": "%s:%s" % (path.split("/pkg/")[-1], line),
+                    "stack": g.group(1)[:3000]}
+        return None                                   # a third-party module: not attributed
+    return None
+
+
+def run_harness(ctx, pkg, test, cases, name, timeout=900, on_crash=None):
     inp = ctx.path(name + "_in.ndjson")
     with open(inp, "w") as fh:
         for c in cases:
             fh.write(jdump(c) + "\n")
     outp = ctx.path(name + "_out.ndjson")
     rc, out = ctx.go_test(pkg, "^%s$" % test, env={"VERIF_IN": inp, "VERIF_OUT": outp}, timeout=timeout)
-    recs = ctx.read_ndjson(outp)
+    recs = _read_tolerant(outp)
     summ = [x for x in recs if x.get("ev") == "summary"]
     if rc != 0 or not summ:
+        crash = _crash_in_code_under_test(out)
+        if crash and on_crash:
+            # the process that serves the exchanges died in the code under test (a panic outside a request handler is
+            # not recovered by net/http): the exchanges recorded so far are evaluated, the crash is handed to the caller
+            done = {x.get("case") for x in recs if x.get("ev") in ("xchg", "broken")}
+            pending = [c for c in cases if c["id"] not in done][:1]
+            on_crash(crash, pending[0] if pending else None)
+            return [x for x in recs if x.get("ev") == "xchg"], {"crashed": True}
         ctx.inconclusive("%s harness failed (rc=%s):\n%s" % (test, rc, out[-3000:]))
     broken = [x for x in recs if x.get("ev") == "broken"]
     if len(broken) > max(2, len(cases) // 100):
